@@ -37,6 +37,20 @@ Theorem C16_paired : forall next, serve_state_listener next = ([Connected; Disco
 Proof. exact paired. Qed.
 Print Assumptions C16_paired.
 
+(* a request that arrives with its context already done (the client gave up, or its deadline passed, while it waited in front
+   of the proxy) is an exchange like any other: 499 / 504 recorded, connected then disconnected reported; an interim 103
+   response of the backend changes the outcome of no mode *)
+Theorem C16_context_already_done : forall c,
+  run_op [4; c] = [if c =? 1 then 504 else 499; 2; 1; 2] /\
+  forall m s b f p, 0 <= m < 100 -> run_op [1; m + 100; s; b; f; p] = run_op [1; m; s; b; f; p].
+Proof. intros c. split.
+  - unfold run_op. destruct (c =? 1); reflexivity.
+  - intros m s b f p Hm. unfold run_op, decode_mode.
+    destruct (Z.leb_spec 100 (m + 100)) as [_|H]; [|lia].
+    destruct (Z.leb_spec 100 m) as [H|_]; [lia|]. replace (m + 100 - 100) with m by lia. reflexivity.
+Qed.
+Print Assumptions C16_context_already_done.
+
 (* the failure modes of the statement: unreachable / failed before responding -> 502, response timeout -> 504, client gone ->
    499 recorded, and in every mode (including the abort during body copy) the listener trace is [connected; disconnected] *)
 Theorem C16_failure_modes : forall s,
